@@ -587,7 +587,7 @@ def conditions(tier, seed):
     for si, shape in indexed_shapes(N, 2):
         n = R.n_features(shape)
         imp = imp0 + 'SHAPE_%d = %r\n' % (si, shape)
-        cp, cpre, cexpr = cards_params(shape, star=True)          # upper bound -1 = '*'
+        cp, cpre, cexpr = cards_params(shape, star='groups')      # upper bound -1 = '*' on groups (a single child with [a..*] is outside several writers' fragments)
         dc = tuple(x for c in R.default_cards(shape) for x in c)
         for wi, (label, _) in enumerate(WRITERS):
             if tier == 'quick' and (wi + si) % 4 != 0:
